@@ -227,12 +227,22 @@ func c12Gen(c *core.Ctx, r *core.Rng, builtin map[string]miniSchema, policy stri
 	sharedKind := core.Pick(r, []string{"file", "http", "https"})
 	differSchema := shareURL && r.Chance(1, 2)
 	allGood := r.Chance(2, 5) // swarm: worlds in which nothing is to be rejected, so V2 judges multi-package runs
+	// directed family: one custom template and schema shared by all packages, validation switched
+	// off for the first package only, the others carry data the schema rejects. Whatever the
+	// order in which the files are produced, the others must be rejected.
+	sharedFlagDiffers := nP >= 2 && r.Chance(1, 6)
+	if sharedFlagDiffers {
+		shareURL, differSchema, allGood = true, false, false
+	}
 	pk := cfg.Sub("packages")
 	for i, q := range pkgs {
 		e := pk.Sub(c09Mod + "/" + q.Dir)
 		pc := e.Sub("config")
 		cp := c12Pkg{Dir: q.Dir, Ifaces: q.AllIfaces(nil), OutFile: "mocks/" + c09Mod + "/" + q.Dir + "/mocks.go", IfaceTD: map[string]map[string]any{}, ConfigsTD: map[string][]map[string]any{}}
 		cp.Template = core.Pick(r, []string{"testify", "matryer", "testify", "matryer", "file", "http", "https", "file", "http"})
+		if sharedFlagDiffers {
+			cp.Template = sharedKind // every package uses the shared custom template in this family
+		}
 		var schema miniSchema
 		custom := cp.Template != "testify" && cp.Template != "matryer"
 		if custom {
@@ -262,6 +272,9 @@ func c12Gen(c *core.Ctx, r *core.Rng, builtin map[string]miniSchema, policy stri
 			if differSchema {
 				cp.SchemaLoc = "explicit"
 			}
+			if sharedFlagDiffers {
+				cp.SchemaLoc = "default"
+			}
 			cp.SchemaURL = cp.TemplURL + ".schema.json"
 			if cp.SchemaLoc == "explicit" {
 				skind := core.Pick(r, []string{"file", "http", "https"})
@@ -273,7 +286,7 @@ func c12Gen(c *core.Ctx, r *core.Rng, builtin map[string]miniSchema, policy stri
 				}
 			}
 			cp.Avail = core.Pick(r, []string{"ok", "ok", "ok", "ok", "404", "500", "transport-error", "truncated", "empty", "not-json", "redirect-ok", "redirect-loop"})
-			if allGood {
+			if allGood || sharedFlagDiffers {
 				cp.Avail = "ok"
 			}
 			if shareURL && !differSchema && cp.SchemaLoc == "default" && i > 0 {
@@ -343,6 +356,9 @@ func c12Gen(c *core.Ctx, r *core.Rng, builtin map[string]miniSchema, policy stri
 			}
 		}
 		cp.Require = core.Pick(r, []string{"unset", "unset", "true", "false", "false"})
+		if sharedFlagDiffers {
+			cp.Require = tern(i == 0, "false", core.Pick(r, []string{"unset", "true"}))
+		}
 		switch cp.Require {
 		case "true":
 			pc.Set("require-template-schema-exists", true)
@@ -353,6 +369,9 @@ func c12Gen(c *core.Ctx, r *core.Rng, builtin map[string]miniSchema, policy stri
 		kind := core.Pick(r, []string{"conforming", "conforming", "conforming", "empty", "missing-required", "extra-key", "wrong-type"})
 		if allGood {
 			kind = core.Pick(r, []string{"conforming", "conforming", "empty"})
+		}
+		if sharedFlagDiffers {
+			kind = tern(i == 0, "conforming", core.Pick(r, []string{"extra-key", "wrong-type"}))
 		}
 		d := c12Data(r, schema, kind)
 		if !custom && kind == "extra-key" && r.Bool() {
@@ -365,6 +384,9 @@ func c12Gen(c *core.Ctx, r *core.Rng, builtin map[string]miniSchema, policy stri
 			}
 		}
 		place := core.Pick(r, []string{"root", "package", "package", "interface", "configs", "split", "override", "every-interface"})
+		if sharedFlagDiffers {
+			place = core.Pick(r, []string{"package", "interface"})
+		}
 		if allGood && (place == "root" || place == "override") {
 			place = "package"
 		}
